@@ -101,7 +101,8 @@ Qed.
 Lemma su_bind : forall l b, secs_unique b -> secs_unique (fst (do_bind l b)).
 Proof.
   intros l b H. unfold do_bind. destruct ((l <? 0) || (nlabels b <=? l)); [exact H|].
-  destruct (existsb (is_label_id l) (active b)); [exact H|]. cbn [fst]. apply su_add_fresh; [reflexivity|].
+  destruct (existsb (is_label_id l) (active b)); [exact H|]. cbn [fst]. apply su_add_fresh.
+  { destruct (find (is_label_id l) (pool b)) eqn:EF; [|reflexivity]. apply find_some in EF. eapply is_label_id_nonsec. exact (proj2 EF). }
   eapply su_same; [|exact H]. unfold secs. simpl_b. rewrite sec_seq_remove_first_nonsec; [reflexivity|]. apply is_label_id_nonsec.
 Qed.
 
@@ -147,6 +148,9 @@ Proof.
     destruct (do_bind l (add_node (mkNode (NAlign kAlignData align) None) b)) as [b2 e]. cbn [fst] in HB.
     destruct (e =? kOk); cbn [fst]; [apply su_add_fresh; [reflexivity|]|]; exact HB.
   - apply su_section; exact H.
+  - destruct (l =? nlabels b); [cbn [fst]; apply su_add_fresh; [reflexivity|]|]; exact H.
+  - eapply su_same; [|apply su_add_fresh; [|apply su_add_fresh; [|apply su_add_fresh; [|exact H]]]]; reflexivity.
+  - destruct (cur_func b); exact H.
   - destruct i as [i|]; [destruct (in_range i (active b))|]; exact H.
   - destruct (in_range i (active b)); [|exact H]. cbn [fst]. apply su_remove_range; [lia|exact H].
   - destruct (in_range i (active b)); [|exact H]. destruct (in_range j (active b)); [|exact H]. destruct (Nat.leb i j) eqn:E3; [|exact H].
